@@ -572,6 +572,47 @@ def check_inherited(g, ax, name):
         return [(site, "euler2d(gamma=%r).numflux(%r, W, W, face %s) raises %r: the name resolves to a formula of the 1D base class" % (g, name, "xy"[ax], e))]
 
 
+def check_mixed_directions(g, flux, res=None):
+    """one call for faces of both directions in any order (y-faces first, interleaved, blocks): each face gets the flux it gets in a call of its own
+    direction (the value for a face does not depend on the other faces of the call, nor on their normals)"""
+    Mx, My = Euler2D(g, 0), Euler2D(g, 1)
+    L, R = pairs(euler2d_states(g, "quick")[:, ::7])
+    n = L.shape[1]
+    with np.errstate(all="ignore"):
+        Fx, Fy = Mx.F(flux, L, R), My.F(flux, L, R)
+    out = []
+    i = np.arange(n)
+    for oname, axes in (("y-faces-first", (i < n // 2).astype(int)), ("interleaved", i % 2), ("blocks-of-three", (i // 3) % 2)):
+        d = np.zeros((2, n))
+        d[axes, i] = 1.0
+        VL = np.where(axes == 0, np.vstack([L[1], L[2]]), np.vstack([L[2], L[1]]))
+        VR = np.where(axes == 0, np.vstack([R[1], R[2]]), np.vstack([R[2], R[1]]))
+        with np.errstate(all="ignore"):
+            f = Mx.model.numflux(flux, [L[0], VL, L[3]], [R[0], VR, R[3]], d)
+        mom = np.asarray(f[1], float)
+        got = [np.asarray(f[0], float), np.where(axes == 0, mom[0], mom[1]), np.where(axes == 0, mom[1], mom[0]), np.asarray(f[2], float)]
+        if res is not None:
+            res.evals += n
+            res.nontrivial += n
+        for k, comp in enumerate(Mx.comps):
+            want = np.where(axes == 0, Fx[k], Fy[k])
+            bad = ~((got[k] == want) | (np.isnan(got[k]) & np.isnan(want)))
+            if bad.any():
+                j = int(np.flatnonzero(bad)[0])
+                out.append(("C02/euler2d/%s/mixed-face-directions/%s" % (flux, comp), "euler2d gamma=%r %s: in a call with both face directions (%s) face %d (%s-face, L=%r R=%r) gets %r, alone among faces of its direction %r" % (
+                    g, flux, oname, j, "xy"[axes[j]], L[:, j].tolist(), R[:, j].tolist(), got[k][j], want[j])))
+                break
+    return out
+
+
+def shard_mixed(arg):
+    g, flux = arg
+    res = core.Res()
+    for s_, w in check_mixed_directions(g, flux, res):
+        res.violation(s_, w, {"kind": "euler2d", "param": [g, 0], "flux": flux, "mixed": True})
+    return res
+
+
 def shard_inherited(arg):
     g, ax, name = arg
     res = core.Res()
@@ -613,6 +654,7 @@ def shard(arg):
 
 def run(ctx):
     ctx.pmap("flux-pairs", shard, [c + (ctx.tier,) for c in configs(ctx.tier)])
+    ctx.pmap("euler2d-mixed-face-directions", shard_mixed, [(g, fl) for g in (1.4, 5.0 / 3.0) for fl in space.fluxes(space.euler.euler2d())])
     # names an euler2d instance offers without a 2D implementation (its registry starts as a copy of the 1D base class's)
     ctx.pmap("euler2d-names-with-1d-implementation", shard_inherited, [(1.4, ax, nm) for nm in space.inherited_1d_fluxes(space.euler.euler2d()) for ax in (0, 1)], procs=1)
 
@@ -623,6 +665,8 @@ def replay(case):
         param = tuple(param)
     if case.get("inherited"):
         return check_inherited(param[0], param[1], case["flux"])
+    if case.get("mixed"):
+        return check_mixed_directions(param[0], case["flux"])
     if "dtype" in case:
         return [(s_, w) for s_, w, i, dtn in dtype_independence(case["kind"], param, case["flux"]) if dtn == case["dtype"]]
     if "batch" in case:
